@@ -486,16 +486,19 @@ Proof.
   destruct (vi_last (s_vars s (a_var a)));
     try (inversion H; subst; destruct Hin; fail);
   destruct (a_op a) eqn:Eo; simpl in H;
-  destruct (has_make_vars (a_val a)) eqn:Em; simpl in H;
-  destruct (after_shell (v_writes (vi_var (s_vars s (a_var a))))) eqn:Es; simpl in H;
-  destruct (str_eqb (v_value (vi_var (s_vars s (a_var a)))) (render (a_val a))) eqn:Ev; simpl in H;
-  destruct (included_by_or_equals_all (s_path s) (vi_paths (s_vars s (a_var a)))); simpl in H;
-  destruct (includes_or_equals_all (s_path s) (vi_paths (s_vars s (a_var a)))); simpl in H;
-  destruct (is_constant (vi_var (s_vars s (a_var a)))) eqn:Ek; simpl in H;
-  try destruct (existsb (str_eqb (a_var a)) (uses (a_val a))) eqn:Eu; simpl in H;
-  try destruct (str_eqb (v_cval (vi_var (s_vars s (a_var a)))) (render (a_val a))) eqn:Ec; simpl in H;
-  try destruct (Nat.eqb (length (v_writes (vi_var (s_vars s (a_var a))))) 1) eqn:El; simpl in H;
-  try (apply Nat.eqb_eq in El);
+  (* only the tests that the chosen branch really performs *)
+  repeat (let E := fresh "E" in
+          match type of H with
+          | context [has_make_vars (a_val a)] => destruct (has_make_vars (a_val a)) eqn:E; simpl in H
+          | context [after_shell ?w] => destruct (after_shell w) eqn:E; simpl in H
+          | context [str_eqb (v_value ?v) ?t] => destruct (str_eqb (v_value v) t) eqn:E; simpl in H
+          | context [included_by_or_equals_all ?p ?q] => destruct (included_by_or_equals_all p q) eqn:E; simpl in H
+          | context [includes_or_equals_all ?p ?q] => destruct (includes_or_equals_all p q) eqn:E; simpl in H
+          | context [is_constant ?v] => destruct (is_constant v) eqn:E; simpl in H
+          | context [existsb ?f ?l] => destruct (existsb f l) eqn:E; simpl in H
+          | context [str_eqb (v_cval ?v) ?t] => destruct (str_eqb (v_cval v) t) eqn:E; simpl in H
+          | context [Nat.eqb ?n 1] => destruct (Nat.eqb n 1) eqn:E; [apply Nat.eqb_eq in E|]; simpl in H
+          end);
   inversion H; subst; simpl in Hin; try contradiction;
   destruct Hin as [<-|[]]; intuition congruence.
 Qed.
